@@ -1184,6 +1184,9 @@ type ByteStore struct {
 	Sets []StoreOp
 	Gets []StoreOp
 	Call *int // points at the driver's current call index (may be nil)
+	// FailSet > 0: the FailSet-th Set operation fails (returns ErrStoreSet, stores nothing); Failed lists such operations
+	FailSet int
+	Failed  []StoreOp
 }
 
 // StoreOp is one store access.
@@ -1191,6 +1194,22 @@ type StoreOp struct {
 	Call int
 	ID   string
 	Len  int
+}
+
+// ErrStoreSet is what an injected failing Set returns.
+var ErrStoreSet = errors.New("gkit: injected checkpoint store failure on Set")
+
+// FailedInCall counts the injected Set failures of the given call.
+func (b *ByteStore) FailedInCall(call int) int {
+	b.mu.Lock()
+	defer b.mu.Unlock()
+	c := 0
+	for _, s := range b.Failed {
+		if s.Call == call {
+			c++
+		}
+	}
+	return c
 }
 
 // NewByteStore creates an empty store.
@@ -1219,6 +1238,11 @@ func (b *ByteStore) Get(ctx context.Context, id string) ([]byte, bool, error) {
 func (b *ByteStore) Set(ctx context.Context, id string, data []byte) error {
 	b.mu.Lock()
 	defer b.mu.Unlock()
+	if b.FailSet > 0 && len(b.Sets)+len(b.Failed)+1 == b.FailSet {
+		// injected fault: this write fails, nothing is stored
+		b.Failed = append(b.Failed, StoreOp{Call: b.call(), ID: id, Len: len(data)})
+		return ErrStoreSet
+	}
 	b.data[id] = append([]byte(nil), data...)
 	b.Sets = append(b.Sets, StoreOp{Call: b.call(), ID: id, Len: len(data)})
 	return nil
